@@ -92,6 +92,7 @@ class Gen:
         self.loop_stack = []      # loop variables currently in use (not to be assigned)
         self.hist = {}
         self.rich = rich
+        self.used_strvar = False   # the string expression under construction reads a string variable / GET$
 
     def note(self, k):
         self.hist[k] = self.hist.get(k, 0) + 1
@@ -210,8 +211,12 @@ class Gen:
         rng = self.rng
         r = rng.random()
         if depth <= 0 or r < 0.35:
-            return str_literal(rng) if rng.random() < 0.6 else rng.choice(self.str_vars)
+            if rng.random() < 0.6:
+                return str_literal(rng)
+            self.used_strvar = True
+            return rng.choice(self.str_vars)
         if r < 0.45:
+            self.used_strvar = True
             return self.arr_ref(rng.choice(STR_ARRS)[0])
         if r < 0.55:
             self.note("fn:CHR$")
@@ -233,6 +238,7 @@ class Gen:
             self.note("fn:PAD")
             return f"{kw(rng, rng.choice(['PAD', 'PAD$']))}({self.str_expr(depth - 1)}, {rng.choice(['0', '3', '8', '20', '-2', self.small_int()])})"
         if r < 0.97:
+            self.used_strvar = True
             return f"{kw(rng, 'GET$')}({self.small_int()})"
         if r < 0.985:
             self.note("fn:EOL$")
@@ -246,6 +252,15 @@ class Gen:
         if n > 1:
             self.note("concat")
         return " + ".join(parts)
+
+    def bounded_str(self, depth):
+        """string expression for a store (assignment, PUT$): when it reads stored strings its length is capped, so that
+        loops cannot double a string without bound (memory exhaustion is not what this property is about)"""
+        self.used_strvar = False
+        e = self.str_expr(depth)
+        if self.used_strvar:
+            e = f"{kw(self.rng, 'MID$')}({e}, 1, {self.rng.choice([40, 200, 400])})"
+        return e
 
     def cond(self, depth=2):
         rng = self.rng
@@ -273,9 +288,9 @@ class Gen:
             return f"{let}{self.arr_ref(a)} = {self.num_expr(2)}"
         if r < 0.85:
             v = rng.choice(self.str_vars)
-            return f"{let}{v} = {self.str_expr(2)}"
+            return f"{let}{v} = {self.bounded_str(2)}"
         a = rng.choice(STR_ARRS)[0]
-        return f"{let}{self.arr_ref(a)} = {self.str_expr(1)}"
+        return f"{let}{self.arr_ref(a)} = {self.bounded_str(1)}"
 
     def output(self):
         rng = self.rng
@@ -302,7 +317,7 @@ class Gen:
             self.note("PUT")
             if rng.random() < 0.7:
                 return f"{kw(rng, 'PUT')}({self.num_expr(2)}, {self.small_int()}" + (f", {self.small_int()}" if rng.random() < 0.5 else "") + ")"
-            return f"{kw(rng, 'PUT$')}({self.str_expr(1)}, {self.small_int()})"
+            return f"{kw(rng, 'PUT$')}({self.bounded_str(1)}, {self.small_int()})"
         if r < 0.88:
             return kw(rng, "REM") + " " + "".join(rng.choice(STR_ALPHABET + "\"'") for _ in range(rng.randint(0, 20)))
         if r < 0.96:
